@@ -579,6 +579,8 @@ pub fn run(cx: &mut Ctx) {
     let _ = Src::loc::<syn::Expr>;
     lexical_rules(cx, &up, &w);
     crate::rules::float_rules::exact_integer_test(cx, "C11.N1");
+    every_field_on_every_path(cx, &up);
+    infinite_constants(cx, &up);
     // string / bytes constants are written by the escape module: its layout must announce the length it writes
     crate::rules::c16::escape_layout_rules(cx, "C11");
 }
@@ -776,5 +778,196 @@ fn lexical_rules(cx: &mut Ctx, up: &Src, w: &Walker) {
                 cx.fail(rule, &format!("{}/escaping", rule), &up.loc(f), "literal f-string text does not double both `{` and `}`");
             }
         }
+    }
+}
+
+
+/// identifiers mentioned by an expression (tokens, including macro arguments)
+fn mentioned(e: &impl quote::ToTokens) -> BTreeSet<String> {
+    let mut v = vec![];
+    sm::flat_tokens(quote::ToTokens::to_token_stream(e), &mut v);
+    v.into_iter().filter(|t| t.chars().next().map_or(false, |c| c.is_alphabetic() || c == '_')).collect()
+}
+
+/// Sets of identifiers mentioned along each path through an expression (branching at `if` / `match`; a loop is one
+/// path with its header and body).
+fn mention_paths(e: &syn::Expr) -> Vec<BTreeSet<String>> {
+    fn seq(a: Vec<BTreeSet<String>>, b: Vec<BTreeSet<String>>) -> Vec<BTreeSet<String>> {
+        let mut out = vec![];
+        for x in &a {
+            for y in &b {
+                let mut u = x.clone();
+                u.extend(y.iter().cloned());
+                out.push(u);
+                if out.len() > 4096 {
+                    return out;
+                }
+            }
+        }
+        out
+    }
+    fn block(b: &syn::Block) -> Vec<BTreeSet<String>> {
+        let mut acc = vec![BTreeSet::new()];
+        for st in &b.stmts {
+            let p = match st {
+                syn::Stmt::Expr(e, _) => mention_paths(e),
+                syn::Stmt::Local(l) => match &l.init {
+                    Some(i) => {
+                        let mut p = mention_paths(&i.expr);
+                        if let Some((_, d)) = &i.diverge {
+                            p = seq(p, vec![mentioned(&**d)]);
+                        }
+                        p
+                    }
+                    None => vec![BTreeSet::new()],
+                },
+                other => vec![mentioned(other)],
+            };
+            acc = seq(acc, p);
+        }
+        acc
+    }
+    match e {
+        syn::Expr::Block(b) => block(&b.block),
+        syn::Expr::If(i) => {
+            let c = vec![mentioned(&*i.cond)];
+            let mut branches = block(&i.then_branch);
+            match &i.else_branch {
+                Some((_, el)) => branches.extend(mention_paths(el)),
+                None => branches.push(BTreeSet::new()),
+            }
+            seq(c, branches)
+        }
+        syn::Expr::Match(m) => {
+            let c = vec![mentioned(&*m.expr)];
+            let mut branches = vec![];
+            for a in &m.arms {
+                let mut p = mention_paths(&a.body);
+                if let Some((_, g)) = &a.guard {
+                    p = seq(vec![mentioned(&**g)], p);
+                }
+                branches.extend(p);
+            }
+            seq(c, branches)
+        }
+        syn::Expr::Try(t) => mention_paths(&t.expr),
+        syn::Expr::Paren(p) => mention_paths(&p.expr),
+        other => vec![mentioned(other)],
+    }
+}
+
+/// R1: every child an arm of the unparser binds is looked at on every path through that arm.
+fn every_field_on_every_path(cx: &mut Ctx, up: &Src) {
+    let rule = "C11.R1";
+    cx.rule(rule, "nothing is dropped from the rendering: in every arm of Unparser::unparse_expr each field the arm's pattern binds by name (fields matched with `_`, `..` or a `_`-prefixed name are the ones the rendering does not depend on) is mentioned on EVERY path through the arm — in a condition, a scrutinee, a loop header or a rendering call — so no branch can print the node without having looked at, e.g., the keyword arguments of a call");
+    cx.floor(rule, 20);
+    let Some(f) = up.method("Unparser", "unparse_expr") else { return cx.anchor_missing(rule, "Unparser::unparse_expr") };
+    let mut big: Option<&syn::ExprMatch> = None;
+    sm::for_each_expr_in_block(&f.block, |e| {
+        if let syn::Expr::Match(m) = e {
+            if big.map_or(true, |b| m.arms.len() > b.arms.len()) {
+                big = Some(m);
+            }
+        }
+    });
+    let Some(m) = big else { return cx.anchor_missing(rule, "the match on the expression kind") };
+    for arm in &m.arms {
+        let mut bound = vec![];
+        sm::pat_idents(&arm.pat, &mut bound);
+        let bound: Vec<String> = bound.into_iter().filter(|b| !b.starts_with('_')).collect();
+        if bound.is_empty() {
+            continue;
+        }
+        let kind = sm::tsc(&arm.pat);
+        let kind: String = kind.trim_start_matches("Expr::").chars().take_while(|c| c.is_alphanumeric()).collect();
+        let paths = mention_paths(&arm.body);
+        let mut missing: BTreeSet<String> = BTreeSet::new();
+        for p in &paths {
+            for b in &bound {
+                if !p.contains(b) {
+                    missing.insert(b.clone());
+                }
+            }
+        }
+        if missing.is_empty() {
+            cx.ok(rule, &format!("{}: {:?} mentioned on all {} paths", kind, bound, paths.len()));
+        } else {
+            cx.fail(rule, &format!("{}/{}", rule, kind), &up.loc(&arm.pat), &format!("the {} arm has a path that never looks at {:?}: that part of the node can be dropped from the rendering", kind, missing));
+        }
+    }
+}
+
+
+/// N2: infinite float / complex components are written as a literal that overflows to infinity, not as `inf`.
+fn infinite_constants(cx: &mut Ctx, up: &Src) {
+    use crate::eval::{Machine, V};
+    let rule = "C11.N2";
+    cx.rule(rule, "`inf` is not Python syntax: in the Constant arm of the unparser the guard of the Float arm holds exactly for infinite values and the guard of the Complex arm holds exactly when the real OR the imaginary part is infinite (evaluated over finite / +inf / -inf components); those arms substitute the overflowing literal `1e309`, every other constant goes through Display");
+    cx.floor(rule, 2);
+    let Some(f) = up.method("Unparser", "unparse_expr") else { return cx.anchor_missing(rule, "Unparser::unparse_expr") };
+    let mut arms: Vec<&syn::Arm> = vec![];
+    sm::for_each_expr_in_block(&f.block, |e| {
+        if let syn::Expr::Match(m) = e {
+            for a in &m.arms {
+                let p = sm::tsc(&a.pat);
+                if p.starts_with("Constant::Float(") || p.starts_with("Constant::Complex{") {
+                    arms.push(a);
+                }
+            }
+        }
+    });
+    let none = |_: &V, _: &str, _: &[V]| -> Option<V> { None };
+    let vals = [1.5f64, 0.0, f64::INFINITY, f64::NEG_INFINITY];
+    let mut seen = 0;
+    for a in arms {
+        let p = sm::tsc(&a.pat);
+        let mut ids = vec![];
+        sm::pat_idents(&a.pat, &mut ids);
+        let body = sm::tsc(&a.body);
+        let Some((_, g)) = &a.guard else {
+            cx.fail(rule, &format!("{}/unguarded", rule), &up.loc(&a.pat), &format!("the arm `{}` has no guard for infinite values", p));
+            continue;
+        };
+        if !body.contains("inf_str") && !body.contains("1e309") {
+            cx.fail(rule, &format!("{}/literal", rule), &up.loc(&a.pat), &format!("the arm `{}` does not write the overflowing literal", p));
+            continue;
+        }
+        seen += 1;
+        let mut bad = vec![];
+        if p.starts_with("Constant::Float(") && ids.len() == 1 {
+            for x in vals {
+                let mut mach = Machine::new(&none);
+                mach.set(&ids[0], V::F(x));
+                match mach.eval(g) {
+                    Ok(V::Bool(b)) if b == x.is_infinite() => {}
+                    other => bad.push(format!("{:?}: guard is {:?}", x, other)),
+                }
+            }
+        } else if ids.len() == 2 {
+            // field order of the pattern: bind by name
+            for re in vals {
+                for im in vals {
+                    let mut mach = Machine::new(&none);
+                    for id in &ids {
+                        mach.set(id, V::F(if id == "real" { re } else { im }));
+                    }
+                    match mach.eval(g) {
+                        Ok(V::Bool(b)) if b == (re.is_infinite() || im.is_infinite()) => {}
+                        other => bad.push(format!("({:?}, {:?}j): guard is {:?}", re, im, other)),
+                    }
+                }
+            }
+        } else {
+            bad.push(format!("pattern binds {:?}", ids));
+        }
+        if bad.is_empty() {
+            cx.ok(rule, &format!("`{}`: guard = some component is infinite", p));
+        } else {
+            bad.truncate(3);
+            cx.fail(rule, &format!("{}/{}", rule, if p.starts_with("Constant::Float") { "Float" } else { "Complex" }), &up.loc(&a.pat), &format!("the guard of `{}` does not select exactly the infinite values: {}: such a constant is rendered as `inf`, which re-lexes as a name", p, bad.join("; ")));
+        }
+    }
+    if seen != 2 {
+        cx.fail(rule, &format!("{}/arms", rule), &up.rel, &format!("{} of the 2 arms for infinite Float / Complex constants found", seen));
     }
 }
